@@ -6,7 +6,7 @@ protocol (one output line per input line):
 
 `cfg n=2 e0=A f0=4s.i,2u.e0:1:3,1u.b s0=i.i5,o.sabc e1=B f1=- s1=- h=A>on_a,B>on_b perm=rev` → `ok`
    per site i: `e<i>` event name, `f<i>` dynamic fields `<width><u|s>.<kind>` (kind `i` int, `b` bool,
-   `o` other, `e<m>:<m>…` enum with member values), `s<i>` statics `<kind>.<raw>` (raw `i<int>` / `s<word>`);
+   `o` other, `e<m>:<m>…` enum with member values, an int or `$word` for a string value), `s<i>` statics `<kind>.<raw>` (raw `i<int>` / `s<word>`);
    `h` the consumer's handler table in definition order (last entry for a name wins), `perm` the order in
    which the decoded records are handed to `EventConsumer.run` (`id`, `rev`, `rot<k>`).
 `cyc s0=11/3/15,200 s1=1/1/7` → `cap=0:-1,200;1:7 pk=… ps=… pv=3`
@@ -20,7 +20,9 @@ protocol (one output line per input line):
 `fin` → `n=… stray=0 ord=1 file=[0,0,[-1,200]]|… ld=1 rd=1 wr=1 spk=1 sps=1 sch=1 dec=… disp=…`
    whole-log observations: number of records, records outside the simulated cycles, log in cycle
    order, the saved lines (spaces removed), load∘save = id, reader = decoded log, streamed writer file =
-   saved file, sampler logs = captured log, the decoded events, the dispatch sequence.
+   saved file, sampler logs = captured log, the decoded events, the dispatch sequence, and (`rdisp`) the
+   dispatch sequence of `run(EventLogReader(f))` for a file f holding the records of the second half of the
+   cycles before those of the first half.
 -/
 
 structure Cfg where
@@ -40,12 +42,18 @@ def allSome {α} : List (Option α) → Option (List α)
   | none :: _ => none
   | some a :: rest => (allSome rest).map (a :: ·)
 
+/-- an enum member value: an int, or `$word` for a string value -/
+def parseMember (s : String) : Option Raw :=
+  match s.toList with
+  | '$' :: rest => some (.str (String.ofList rest))
+  | _ => s.toInt?.map Raw.int
+
 def parseKind (s : String) : Option Kind :=
   match s.toList with
   | ['i'] => some .int
   | ['b'] => some .bool
   | ['o'] => some .other
-  | 'e' :: rest => (allSome ((splitC ":" (String.ofList rest)).map String.toInt?)).map Kind.enum
+  | 'e' :: rest => (allSome ((splitC ":" (String.ofList rest)).map parseMember)).map Kind.enum
   | _ => none
 
 def parseField (s : String) : Option FieldSpec :=
@@ -128,7 +136,8 @@ def showVal : Val → String
   | .int v => s!"i{v}"
   | .str s => s!"s{s}"
   | .bool b => if b then "bT" else "bF"
-  | .enum v => s!"e{v}"
+  | .enum (.int v) => s!"e{v}"
+  | .enum (.str w) => s!"e${w}"
 
 def showDec (d : Decoded) : String :=
   s!"{d.cycle}.{d.site}:{",".intercalate (d.dyn.map showVal)}~{",".intercalate (d.stat.map showVal)}"
@@ -222,15 +231,22 @@ def finLine (s : St) : String :=
   let ord := (log.raw.map (·.cycle)) == (List.range trace.length).flatMap (fun c => (log.raw.filter (·.cycle == c)).map (·.cycle))
   let pre := s!"n={n} stray=0 ord={b01 ord} file={if txt == "" then "-" else txt} ld={b01 ld} rd={b01 rd} wr=1 spk={b01 spk} sps={b01 sps} sch=1"
   match log.decoded with
-  | none => s!"{pre} dec=! disp=!"
+  | none => s!"{pre} dec=! disp=! rdisp=!"
   | some ds =>
     match permute s.cfg.perm ds with
     | none => "bad-op"
     | some pds =>
       let calls := consumerRun s.cfg.handlers sch pds
       let dec := if ds.isEmpty then "-" else ";".intercalate (ds.map showDec)
-      let disp := if calls.isEmpty then "-" else ";".intercalate (calls.map fun (h, d) => s!"{h}@{d.cycle}.{d.site}")
-      s!"{pre} dec={dec} disp={disp}"
+      let showCalls := fun (cs : List (String × Decoded)) =>
+        if cs.isEmpty then "-" else ";".intercalate (cs.map fun (h, d) => s!"{h}@{d.cycle}.{d.site}")
+      -- a file NOT in cycle order (second half of the cycles written first), handed to `run` as a reader
+      let mid := trace.length / 2
+      let raw2 := log.raw.filter (fun e => decide (mid ≤ e.cycle)) ++ log.raw.filter (fun e => decide (e.cycle < mid))
+      let rdisp := match readerAll codec (save codec ⟨sch, raw2⟩) with
+        | some ds2 => showCalls (consumerRun s.cfg.handlers sch ds2)
+        | none => "!"
+      s!"{pre} dec={dec} disp={showCalls calls} rdisp={rdisp}"
 
 def stepLine (s : St) (line : String) : St × String :=
   let t := tokens line
